@@ -94,6 +94,13 @@ def net_part(ck, tier, rng):
     cases, terms, groups = [], [], []
     nsim = 0
     corpus = [case_of(json.load(open(f))) for f in sorted(glob.glob(str(VERIF / "corpus" / "C08" / "*.json")))]
+    # fixed shapes: two sources with equal periods (their callbacks always tie) feeding one sink, flat and across a system boundary
+    for cfg, devs in (({1: dict(order=[(3, "dev"), (4, "dev"), (5, "dev")], conns=[(3, 1, 5, 1), (4, 1, 5, 2)])},
+                       {3: (21, 300_000_000, 1), 4: (22, 300_000_000, 1), 5: (23, 1_000_000_000, 0)}),
+                      ({1: dict(order=[(3, "dev"), (4, 2), (8, "dev")], conns=[(3, 1, 8, 1), (4, 1, 8, 2)]),
+                        2: dict(order=[(5, "dev"), (6, "dev")], conns=[(5, 1, 6, 1), (6, 1, 2, 1)])},
+                       {3: (24, 400_000_000, 1), 5: (25, 400_000_000, 1), 6: (26, 1_000_000_000, 0), 8: (27, 1_000_000_000, 0)})):
+        corpus.append(dict(cfg=cfg, devs=devs, stim=[], schedules=[(pol, 7 + j) for j, pol in enumerate(["lifo", "random", "hold-component", "random", "fifo"])]))
     for i in range(len(corpus) + n):
         if i < len(corpus):
             case = corpus[i]      # minimised regression cases run first
